@@ -570,7 +570,7 @@ fn c14_random_judgement_sets() {
         if !unfiltered && may_hit_d13(n, &js) { skipped += 1; if skipped <= 12 && std::env::var("VX_C14_DEBUG").is_ok() { println!("SKIP {}", show_js(n, &js)); } if skipped > 50 * rounds { break; } continue; }
         round += 1;
         cases += 1;
-        if run_and_report(n, &js, Duration::from_secs(5), &mut reported, "unify.terminates") { diverged += 1; }
+        if run_and_report(n, &js, Duration::from_secs(20), &mut reported, "unify.terminates") { diverged += 1; }
         // every divergence costs the whole budget: stop early when the tree diverges all the time
         if diverged >= 4 || t0.elapsed() > Duration::from_secs(20 * scale()) { break; }
     }
@@ -613,7 +613,7 @@ fn c14_named_shapes() {
     for (n, js) in &sets {
         for _ in 0..6 {
             cases += 1;
-            if run_and_report(*n, js, Duration::from_secs(5), &mut reported, "unify.terminates") { diverged += 1; break; }
+            if run_and_report(*n, js, Duration::from_secs(20), &mut reported, "unify.terminates") { diverged += 1; break; }
         }
         if diverged >= 3 { break; }
     }
